@@ -31,7 +31,8 @@ CHECKS = {
                   "entries, embedded record nil or present), reject; routing-table computation over 3 nodes with arbitrary real costs, unwind 12; "
                   "stream backends: every byte stream of <= 5 bytes in 1-2 chunks through the real framer (every 16-bit length prefix)",
         "assumptions": ["JSON bodies that fail to decode are represented by the decode-error path"],
-        "outside": ["memory exhaustion by large frames", "scheduling between several sessions", "kernel / websocket library"],
+        "outside": ["float rounding: costs are reals in the encoding, so absorption such as 2.0 + 1e-20 == 2.0 is invisible (seeded change C07g is NOT detected)",
+                    "memory exhaustion by large frames", "scheduling between several sessions", "kernel / websocket library"],
         "level_text": "Bounded symbolic execution of the real runProtocol loop (with its reader/writer/initial-message goroutines as engine "
                       "threads) on every datagram of the stated classes: no panic, no unbounded recursion, no deadlock, no lock left held, "
                       "the session ends cleanly; routing-table computation terminates within the unwinding bound.",
@@ -163,7 +164,8 @@ CHECKS = {
         "schedule_harnesses": ["Verif_C04_rescan_while_runner_writes"],
         "assumptions": ["file-system model: every state-changing operation (create, truncate, write, mkdir, remove) is atomic (process kill, not power loss)",
                         "unit IDs fixed by the harness (randomness stubbed)"],
-        "outside": ["the detached runner process and real process signalling", "file descriptors inherited by child processes (the control-socket lock "
+        "outside": ["file-change events (fsnotify is a stub) and timestamp granularity of the file system (seeded change C04g is NOT detected)",
+                    "the detached runner process and real process signalling", "file descriptors inherited by child processes (the control-socket lock "
                     "held by a surviving runner - seeded change C04e is NOT detected)", "fsync / power loss", "kernel-level atomicity of a single write",
                     "kubernetes and python units", "repeated crash/restart cycles beyond one"],
         "level_text": "Bounded symbolic execution of the real status-file code (Save/Load/UpdateFullStatus/lockStatusFile), AllocateUnit / "
@@ -178,7 +180,8 @@ CHECKS = {
                   "file-system operation a scheduling point, 2 pre-emptions; arbitrary numeric increments",
         "schedule_harnesses": ["Verif_C14_rmw_serialisable", "Verif_C14_shared_unit", "Verif_C14_rescan_while_runner_writes", "Verif_C14_stdout_size_vs_state_writer", "Verif_C14_state_update_leaves_the_size_alone"],
         "assumptions": ["lockedfile model: exclusive advisory lock per open file description, blocking, released on close"],
-        "outside": ["real flock semantics on network file systems", "more than 3 concurrent actors", "schedules needing more than 2 pre-emptions"],
+        "outside": ["data races inside one critical section (e.g. writes under a shared lock): the engine interleaves only at synchronisation points "
+                    "(seeded change C14g is NOT detected)", "real flock semantics on network file systems", "more than 3 concurrent actors", "schedules needing more than 2 pre-emptions"],
         "level_text": "Bounded symbolic execution with schedule exploration of the real UpdateFullStatus/UpdateBasicStatus/Load/Save on the "
                       "file-system model: the final record is that of some serial order (no lost update, no wiped field) and a reader sees a whole record.",
         "level_note": _TRUST,
